@@ -52,6 +52,21 @@ macro_rules! pm_body {
     }};
 }
 
+/// Fixed-length variant: every slice length is concrete, only the digits are symbolic.
+macro_rules! pm_fixed {
+    ($LI:expr, $LF:expr, $max:expr) => {{
+        let ib: [u8; $LI] = any();
+        let fb: [u8; $LF] = any();
+        let mut i = 0;
+        while i < $LI { assume(ib[i] >= b'0' && ib[i] <= b'9'); i += 1; }
+        let mut j = 0;
+        while j < $LF { assume(fb[j] >= b'0' && fb[j] <= b'9'); j += 1; }
+        let r = cmp_parse_mantissa(&ib[..], Some(&fb[..]), $max);
+        vcheck!(r.is_ok(), "parse_mantissa keeps max_digits digits and records dropped non-zero digits (integer and fraction) as a sticky digit");
+        cover(ib[0] != b'0' && ib[$LI - 1] == b'0' && fb[$LF - 1] != b'0');
+    }};
+}
+
 crate::harnesses! {
     /// parse_mantissa with max_digits = 2: integer part <= 3 digits, optional fraction <= 2 digits (all digit strings).
     /// @prop C01 C05
@@ -64,4 +79,16 @@ crate::harnesses! {
     /// @timeout 1500
     #[cfg_attr(kani, kani::unwind(5))]
     fn slow_parse_mantissa_max2() { pm_body!(3, 2, 2) }
+    /// parse_mantissa with max_digits = 2, integer part of exactly 3 digits and a fraction of exactly 1 digit: the integer part
+    /// alone fills max_digits, so the sticky digit must come from the remaining integer digit OR the fraction.
+    /// @prop C01 C05
+    /// @tier quick
+    /// @feat default
+    /// @bound max_digits = 2; integer digits == 3, fraction digits == 1 (decimal, all 10^4 digit strings)
+    /// @mem 6
+    /// @fn lexical-parse-float::slow::parse_mantissa
+    /// @fn lexical-parse-float::slow::{add_digit!, add_temporary!, round_up_nonzero!, round_up_truncated!}
+    /// @timeout 600
+    #[cfg_attr(kani, kani::unwind(5))]
+    fn slow_parse_mantissa_max2_int3_frac1() { pm_fixed!(3, 1, 2) }
 }
